@@ -12,7 +12,7 @@ props = [json.loads(l)["id"] for l in open(os.path.join(ROOT, "properties.jsonl"
 checks, na = [], []
 for pid in props:
     sp = specs.SPECS.get(pid)
-    if not sp or sp.get("unclaimed"):
+    if not sp or sp.get("unclaimed") or pid not in specs.READY:
         na.append({"property_id": pid, "reason": (sp or {}).get("unclaimed", "check not built yet (work in progress); nothing is claimed for this property")})
         continue
     m = sp["manifest"]
